@@ -44,7 +44,9 @@ Print Assumptions legacy_spec_eq_observe_model.
    objects put into the slot are above its owner (fresh objects at every insertion). *)
 Theorem tree_shaped_edge_acyclic :
   forall t rank h rs o fo news,
-    fo <> TA -> ranked rank h -> (forall y, In y news -> rank o < rank y) -> edge_acyclic t h rs o fo news.
+    fo <> TA -> ranked rank h -> (forall y, In y news -> rank o < rank y) ->
+    (forall kc, In kc (occ_all t h rs o fo) -> forall y, In y news -> walkable t (upd h o fo news) (snd kc) y = true) ->
+    edge_acyclic t h rs o fo news.
 Proof. exact ranked_edge_acyclic_lemma. Qed.
 Print Assumptions tree_shaped_edge_acyclic.
 
@@ -57,9 +59,9 @@ Print Assumptions remove_stops_calls.
 
 (* Re-assigning the intermediate trait named first: reported iff the separator after it is '.'. *)
 Theorem dot_reports_colon_silent :
-  forall t rank h names s rest gs r f,
+  forall t rank h names s p rest gs r f,
     ranked rank h -> (forall f', In f' names -> t r f' = true) -> rest <> [] -> In f names ->
-    legacy_to_graph ((names, s) :: rest) = Some gs ->
+    legacy_to_graph ((names, s, p) :: rest) = Some gs ->
     existsb (fun g => matched t h g r r f) gs = sep_notify s.
 Proof. exact dot_colon_lemma. Qed.
 Print Assumptions dot_reports_colon_silent.
@@ -67,9 +69,9 @@ Print Assumptions dot_reports_colon_silent.
 (* Non-vacuity: 'kids.f:value' on a tree; the graphs, a history through the C08 model with its
    hypotheses, and the path counts. *)
 Example name_nontrivial :
-  let e := [([3], Dot); ([1], Colon); ([0], Dot)] in
-  let gs := [G [3] true true [G [6] true false [G [1] false true [G [0] true true []]]]] in
-  let ops := [SetCont 0 3 [1; 2] false; SetRef 1 1 [3]; SetRef 2 1 [4]; Observe 0 0 (hd (G [0] true true []) gs);
+  let e := [([3], Dot, false); ([1], Colon, true); ([0], Dot, false)] in
+  let gs := [G [3] true true false [G [6] true false false [G [1] false true true [G [0] true true false []]]]] in
+  let ops := [SetCont 0 3 [1; 2] false; SetRef 1 1 [3]; SetRef 2 1 [4]; Observe 0 0 (hd (G [0] true true false []) gs);
               Probe 3; SetRef 1 1 [5]; Probe 3; Probe 5; Splice 6 6 0 1 []; Probe 5] in
   legacy_to_graph e = Some gs
   /\ hyps (init 6) ops = true
